@@ -500,6 +500,15 @@ func (g *gen) rxKey() string {
 	return sb.String()
 }
 
+func isASCII(s string) bool {
+	for i := 0; i < len(s); i++ {
+		if s[i] >= 0x80 {
+			return false
+		}
+	}
+	return true
+}
+
 func caseSensitiveVar(n string) bool {
 	switch n {
 	case "ARGS", "ARGS_NAMES", "ARGS_GET", "ARGS_POST", "ARGS_GET_NAMES", "ARGS_POST_NAMES":
@@ -688,6 +697,22 @@ func (g *gen) desc(id int) Desc {
 	}
 	// the first target is never a negation of nothing (harmless, but keep rules meaningful)
 	d.Targets[0].Neg = false
+	// keys with non-ASCII bytes only when every target is a case-sensitive (ARGS family) variable:
+	// strings.ToLower on the key of any other collection is outside the model (Unicode tables,
+	// U+FFFD for invalid bytes), and a near miss may merge two targets into one key
+	allCS := true
+	for _, t := range d.Targets {
+		if !caseSensitiveVar(t.Var) {
+			allCS = false
+		}
+	}
+	if !allCS {
+		for i, t := range d.Targets {
+			if t.Kind == "str" && !isASCII(unhx(t.Key)) {
+				d.Targets[i].Key = hx(g.plainKey(true))
+			}
+		}
+	}
 	d.Op = g.op()
 	d.Actions = g.actionsList(id)
 	return d
@@ -1085,7 +1110,7 @@ func (r *runner) generate(g *gen) {
 	}
 
 	// ---- cutQuotedString: exhaustive over its metacharacters ----
-	for _, s := range enumerate("\"\\a ", cfg.Pick(5, 7)) {
+	for _, s := range enumerate("\"\\a ", cfg.Pick(4, 7)) {
 		r.addCut(s)
 	}
 
@@ -1109,7 +1134,7 @@ func (r *runner) generate(g *gen) {
 	for _, s := range actFixed {
 		r.addActions(s)
 	}
-	for i := 0; i < cfg.Pick(700, 12000); i++ {
+	for i := 0; i < cfg.Pick(500, 6000); i++ {
 		n := 1 + g.r.Intn(4)
 		var parts []string
 		for j := 0; j < n; j++ {
@@ -1131,7 +1156,7 @@ func (r *runner) generate(g *gen) {
 		}
 		r.addActions(strings.Join(parts, g.pick([]string{",", ",", ", ", " ,"})))
 	}
-	for _, s := range enumerate("t:',\\ ", cfg.Pick(4, 5)) {
+	for _, s := range enumerate("t:',\\ ", cfg.Pick(3, 5)) {
 		r.addActions("tag:" + s)
 	}
 
@@ -1143,7 +1168,7 @@ func (r *runner) generate(g *gen) {
 	for _, s := range splitFixed {
 		r.addSplit(s)
 	}
-	for i := 0; i < cfg.Pick(500, 8000); i++ {
+	for i := 0; i < cfg.Pick(350, 5000); i++ {
 		var sb strings.Builder
 		sb.WriteString(g.pick([]string{"", " ", "  "}))
 		sb.WriteString(g.pick([]string{"ARGS", "ARGS|TX:a", "A\"B", "", "X"}))
@@ -1164,7 +1189,7 @@ func (r *runner) generate(g *gen) {
 	for _, s := range varsFixed {
 		r.addVars(s)
 	}
-	for i := 0; i < cfg.Pick(700, 12000); i++ {
+	for i := 0; i < cfg.Pick(450, 6000); i++ {
 		n := 1 + g.r.Intn(3)
 		var parts []string
 		for j := 0; j < n; j++ {
@@ -1179,7 +1204,7 @@ func (r *runner) generate(g *gen) {
 	}
 
 	// ---- structured descriptions, variations, near misses ----
-	ndesc := cfg.Pick(45, 1400)
+	ndesc := cfg.Pick(36, 500)
 	for i := 0; i < ndesc; i++ {
 		d := g.desc(1000 + i)
 		line0, o0 := r.addDesc(d, nil, RVar{}, "")
@@ -1209,9 +1234,9 @@ func (r *runner) generate(g *gen) {
 		}
 		// near misses of the plain rendering (thorough: also of a varied one)
 		nm := nearMisses(line0)
-		if !cfg.Thorough() && len(nm) > 60 {
+		if !cfg.Thorough() && len(nm) > 50 {
 			g.r.Shuffle(len(nm), func(a, b int) { nm[a], nm[b] = nm[b], nm[a] })
-			nm = nm[:60]
+			nm = nm[:50]
 		}
 		for _, t := range nm {
 			r.addText(nil, t, "nearmiss", "")
@@ -1219,7 +1244,7 @@ func (r *runner) generate(g *gen) {
 	}
 
 	// ---- several rules, Include splitting ----
-	for i := 0; i < cfg.Pick(40, 800); i++ {
+	for i := 0; i < cfg.Pick(30, 500); i++ {
 		n := 2 + g.r.Intn(3)
 		var lines []string
 		for j := 0; j < n; j++ {
